@@ -112,6 +112,27 @@ def check_file(rng, tpb, evs):
     ln = mf.length
     if abs(Fraction(ln) - exact[-1]) > Fraction(len(evs) + 2, 2 ** 50) * max(exact[-1], Fraction(1, 10 ** 12)):
         return ('length', 'length %r but the last message is at %r' % (ln, float(exact[-1])))
+    # the same object after its tempo map was edited in place (same number of messages): times must follow the map it has NOW
+    edited = False
+    for tr in mf.tracks:
+        for m in tr:
+            if m.type == 'set_tempo':
+                m.tempo = 123457 if m.tempo != 123457 else 654321
+                edited = True
+                break
+            if m.time:
+                m.time = m.time + 7
+                edited = True
+                break
+        if edited:
+            break
+    if edited:
+        fresh = mido.MidiFile(type=mf.type, ticks_per_beat=mf.ticks_per_beat, tracks=[mido.MidiTrack(x.copy() for x in tr) for tr in mf.tracks])
+        a = [(x.type, x.time) for x in mf]
+        b = [(x.type, x.time) for x in fresh]
+        if a != b or mf.length != fresh.length:
+            return ('stale-after-edit', 'after an in-place edit of a message the file yields times %r (length %r); a new file with the same contents yields %r (length %r)'
+                    % (a[:6], mf.length, b[:6], fresh.length))
     return None
 
 
